@@ -528,3 +528,70 @@ pub fn load_known_findings(path: &str) -> Vec<KnownFinding> {
         .filter_map(|l| serde_json::from_str(l).ok())
         .collect()
 }
+
+/// Run `f` in a forked child with an alarm; the child reports (code, text) through a pipe.
+/// Returns (exit status or -signal, text). Call only while no other threads are running.
+pub fn in_child(timeout_s: u32, f: impl FnOnce() -> (i32, String)) -> (i32, String) {
+    unsafe {
+        let mut fds = [0i32; 2];
+        if libc::pipe(fds.as_mut_ptr()) != 0 {
+            return (-1000, "pipe failed".into());
+        }
+        let pid = libc::fork();
+        if pid < 0 {
+            return (-1000, "fork failed".into());
+        }
+        if pid == 0 {
+            libc::close(fds[0]);
+            libc::alarm(timeout_s);
+            let r = std::panic::catch_unwind(std::panic::AssertUnwindSafe(f));
+            let (code, text) = match r {
+                Ok(x) => x,
+                Err(p) => (3, format!("harness child panicked: {}", panic_msg(&p))),
+            };
+            let b = text.as_bytes();
+            let mut off = 0;
+            while off < b.len() {
+                let w = libc::write(fds[1], b[off..].as_ptr() as *const libc::c_void, b.len() - off);
+                if w <= 0 {
+                    break;
+                }
+                off += w as usize;
+            }
+            libc::close(fds[1]);
+            libc::_exit(code);
+        }
+        libc::close(fds[1]);
+        let mut text = Vec::new();
+        let mut buf = [0u8; 4096];
+        loop {
+            let r = libc::read(fds[0], buf.as_mut_ptr() as *mut libc::c_void, buf.len());
+            if r > 0 {
+                text.extend_from_slice(&buf[..r as usize]);
+            } else if r == 0 {
+                break;
+            } else if *libc::__errno_location() != libc::EINTR {
+                break;
+            }
+        }
+        libc::close(fds[0]);
+        let mut status = 0;
+        loop {
+            let r = libc::waitpid(pid, &mut status, 0);
+            if r == pid {
+                break;
+            }
+            if r < 0 && *libc::__errno_location() != libc::EINTR {
+                return (-1000, "waitpid failed".into());
+            }
+        }
+        let text = String::from_utf8_lossy(&text).into_owned();
+        if libc::WIFEXITED(status) {
+            (libc::WEXITSTATUS(status), text)
+        } else if libc::WIFSIGNALED(status) {
+            (-libc::WTERMSIG(status), text)
+        } else {
+            (-1000, text)
+        }
+    }
+}
